@@ -258,7 +258,18 @@ class CommentStyle:
         lines = text.splitlines()
         end: Optional[int] = None
 
-        if cls.can_handle_single():
+        # Attempt multi-line comments first, for the same reason as in
+        # parse_comment: in styles like Julia, the multi-line opener '#=' also
+        # looks like a single-line comment.
+        starts_multi = cls.can_handle_multi() and text.startswith(
+            cls.MULTI_LINE.start
+        )
+        if starts_multi:
+            for i, line in enumerate(lines):
+                if line.endswith(cls.MULTI_LINE.end):
+                    end = i
+                    break
+        if end is None and cls.can_handle_single():
             for i, line in enumerate(lines):
                 if (
                     cls.SINGLE_LINE_REGEXP
@@ -267,17 +278,8 @@ class CommentStyle:
                     end = i
                 else:
                     break
-        if (
-            end is None
-            and cls.can_handle_multi()
-            and text.startswith(cls.MULTI_LINE.start)
-        ):
-            for i, line in enumerate(lines):
-                end = i
-                if line.endswith(cls.MULTI_LINE.end):
-                    break
-            else:
-                raise CommentParseError("Comment block never delimits")
+        if end is None and starts_multi:
+            raise CommentParseError("Comment block never delimits")
 
         if end is not None:
             return "\n".join(lines[: end + 1])
